@@ -108,6 +108,9 @@ pub fn run_ops(ops: &[String]) -> (Vec<String>, bool) {
                 regs[n(1)] = SlotMap::from_pairs(&pairs);
                 "ok".into()
             }
+            // a slot written `$f<N>` (the spelling of fresh slots) obtained by name: from here on its code may be used as a
+            // key or a value, and the fill-in slots of `compose_fresh` / `bijection_from_fresh_to` must stay clear of it
+            "nf" => code(Slot::named(&format!("f{}", n(1)))).to_string(),
             "isb" => b(regs[n(1)].is_bijection()).into(),
             "isp" => b(regs[n(1)].is_perm()).into(),
             "keys" => enc_set(regs[n(1)].keys().iter().copied()),
@@ -213,10 +216,29 @@ fn random_case(rng: &mut Rng) -> Vec<String> {
             }
         }
     }
+    // a quarter of the cases: some slots are `$f<N>` names for fresh slots that have not been handed out yet; they are
+    // used as keys and values afterwards, next to fill-in slots drawn by `compose_fresh`
+    let mut fnames: Vec<u32> = Vec::new();
+    if rng.chance(1, 4) {
+        for _ in 0..rng.range(1, 3) {
+            let nn = rng.below(9) as u32;
+            ops.push(format!("nf {nn}"));
+            fnames.push(4 * nn + 1);
+        }
+    }
     for _ in 0..len {
         let r = rng.below(4);
         let r2 = rng.below(4);
         let d = rng.below(4);
+        if !fnames.is_empty() && rng.chance(1, 3) {
+            let f = fnames[rng.below(fnames.len())];
+            let o = rand_slot(rng, big);
+            ops.push(if rng.chance(1, 2) { format!("ins {r} {f} {o}") } else { format!("ins {r} {o} {f}") });
+            if rng.chance(1, 2) {
+                ops.push(format!("cf {r} {r2} {d}"));
+            }
+            continue;
+        }
         let op = match rng.below(20) {
             0..=6 => format!("ins {r} {} {}", rand_slot(rng, big), rand_slot(rng, big)),
             7..=8 => format!("rem {r} {}", rand_slot(rng, big)),
